@@ -272,3 +272,10 @@ package linux
 // address is a host route, `default` is 0.0.0.0/0.
 //vc:func parseRoutes
 //vc:  assert[C05] at "result = append(result," @destinationSplitAtSlash (strings.Cut$2(words[0], "/") ==> ip == strings.Cut(words[0], "/") && prefix == strconv.Atoi(strings.Cut$1(words[0], "/"))) && (!strings.Cut$2(words[0], "/") && words[0] != "default" ==> ip == words[0] && prefix == 32) && (!strings.Cut$2(words[0], "/") && words[0] == "default" ==> ip == "0.0.0.0" && prefix == 0)
+
+// ---- C05: the restore file declares every chain of the target ----
+// One ":NAME POLICY" line per chain, empty user defined chains included
+// (a chain without rules still differs from a missing chain).
+//vc:func getIPTablesConfig
+//vc:  invariant[C05] 2 "for _, cName := range cNames" @everyChainDeclared -1 <= rangeindex && len(result) == loopold(len(result)) + rangeindex + 1
+//vc:  invariant[C05] 2 "for _, cName := range cNames" @declarationNamesChainAndPolicy forall k int :: k == rangeindex && 0 <= k ==> result[len(result) - 1] == ":" + cNames[k] + " " + chains[cNames[k]].policy
